@@ -51,6 +51,7 @@ type Profile struct {
 	DisabledPct    int  // percent of decorators switched off through decor.OnCondition(d, false)
 	EwmaPct        int  // percent of decorators that also implement EwmaDecorator
 	NoDecorPct     int  // percent of bars without any decorator (besides the row tag)
+	BarePct        int  // percent of bars without any decorator, row tag included
 	ChurnW         int  // weight of the macro "finish a bar, two render cycles, add the next bar" (one leaves, one joins between two frames)
 	PrioExtreme    bool // priorities from the whole int range now and then
 	PrioOnFinished bool // priority changes also on bars that have finished
@@ -58,6 +59,8 @@ type Profile struct {
 	AddTick        int  // % of adds during which an option callback requests a frame
 	AddAfterCancel int  // % of cancelled programs that call Add right after the cancel
 	OutSlow        int  // % of buffer outputs whose Write takes 0.1-1.5 ms
+	DebugNil       int  // % of containers built with WithDebugOutput(nil)
+	Peer           int  // % of containers without synchronised decorators in which decorators read an earlier bar while they are drawn
 	StaticTexts    bool // one text per decorator
 	RepeatText     int  // weight of the macro "same text written in consecutive frames"
 	Faults         int  // percent of scenarios with one filler/extender fault
@@ -167,6 +170,11 @@ func genBarSpec(t *rapid.T, prof *Profile, idx int, succOf map[int]bool) engine.
 		b.OnComplete = true
 		b.OnAbort = rapid.Bool().Draw(t, "onabortfill")
 	}
+	if pct(t, prof.BarePct, "bare") {
+		// no decorator at all, not even the harness's row tag (only for checks that do not read rows)
+		b.NoTag = true
+		return b
+	}
 	for side := 0; side < 2 && !pct(t, prof.NoDecorPct, "nodecor"); side++ {
 		if prof.SyncDecors > 0 {
 			ns := rapid.IntRange(0, prof.SyncDecors).Draw(t, "nsync")
@@ -249,6 +257,7 @@ func genSetup(t *rapid.T, prof *Profile) *engine.Scenario {
 	if sc.Cfg.PtyRows == 0 && pct(t, prof.OutSlow, "outslow") {
 		sc.Cfg.OutSlowUs = rapid.IntRange(100, 1500).Draw(t, "outslowus")
 	}
+	sc.Cfg.DebugNil = pct(t, prof.DebugNil, "debugnil")
 	sc.Cfg.UserWG = pct(t, prof.UserWG, "userwg")
 	if sc.Cfg.UserWG {
 		sc.Cfg.UserWGUntilDone = rapid.Bool().Draw(t, "userwguntildone")
@@ -259,6 +268,28 @@ func genSetup(t *rapid.T, prof *Profile) *engine.Scenario {
 	succOf := map[int]bool{}
 	for i := 0; i < nb; i++ {
 		sc.Bars = append(sc.Bars, genBarSpec(t, prof, i, succOf))
+	}
+	if prof.Peer > 0 && nb >= 2 {
+		// "summary" decorators that look at an earlier bar while they are drawn: only
+		// where no decorator synchronises its width (a bar waiting for the others'
+		// widths inside its own frame cannot answer, whatever the library does)
+		syncs := false
+		for _, b := range sc.Bars {
+			for _, d := range b.Decors {
+				if d.C&decor.DSyncWidth != 0 {
+					syncs = true
+				}
+			}
+		}
+		if !syncs && pct(t, prof.Peer, "peers") {
+			for i := 1; i < nb; i++ {
+				for di := range sc.Bars[i].Decors {
+					if rapid.IntRange(0, 2).Draw(t, "peerhere") == 0 {
+						sc.Bars[i].Decors[di].PeerBar = 1 + rapid.IntRange(0, i-1).Draw(t, "peerbar")
+					}
+				}
+			}
+		}
 	}
 	if pct(t, prof.Faults, "fault") {
 		i := rapid.IntRange(0, nb-1).Draw(t, "faultbar")
@@ -685,6 +716,18 @@ func featureClasses(sc *engine.Scenario) []string {
 	var out []string
 	if sc.Cfg.Delay && sc.Cfg.DelayNever {
 		out = append(out, "delay-never-released")
+	}
+	if sc.Cfg.DebugNil {
+		out = append(out, "debug-output-nil")
+	}
+	peer := false
+	for _, b := range sc.Bars {
+		for _, d := range b.Decors {
+			peer = peer || d.PeerBar > 0
+		}
+	}
+	if peer {
+		out = append(out, "decorator-reads-another-bar")
 	}
 	seen := map[string]bool{}
 	cancelled := false
